@@ -76,11 +76,53 @@ def zv_path(variant="prod"):
     return os.path.join(HARNESS, VARIANTS[variant][0], "release", "zv")
 
 
+def _recover_hung(args):
+    """The harness's watchdog ended the run (status 3): the code under test made no progress for 30 s inside
+    one scenario (a busy loop inside a poll, a dead-lock).  Rebuild the trace: everything up to the scenario
+    in progress is on disk, the events of that scenario plus a final `hung` event are in <out>.hung.  No
+    trace specification has a disjunct for `hung`, so TLC rejects exactly that scenario."""
+    args = [str(a) for a in args]
+    if "--out" not in args:
+        return False
+    out = args[args.index("--out") + 1]
+    hung = out + ".hung"
+    if not os.path.exists(hung):
+        return False
+    hl = [l for l in open(hung).read().splitlines() if l.strip()]
+    disk = [l for l in open(out, errors="replace").read().splitlines() if l.strip()] if os.path.exists(out) else []
+    # drop a torn last line and whatever the disk already holds of the scenario in progress
+    if disk:
+        try:
+            json.loads(disk[-1])
+        except Exception:
+            disk.pop()
+    if hl and hl[0] in disk:
+        disk = disk[:disk.index(hl[0])]
+    with open(out, "w") as f:
+        f.write("\n".join(disk + hl) + "\n")
+    os.remove(hung)
+    nscen = sum(1 for l in disk + hl if '"ev":"reset"' in l)
+    with open(out + ".summary.json", "w") as f:
+        json.dump({"hung": True, "scenarios": nscen, "events": len(disk) + len(hl), "cases": nscen, "trees": 0, "scalars": 0,
+                   "atoms": 0, "sizes_tried": 0, "frames": 0, "by_outcome": {}, "has_error_cases": 0}, f)
+    # the scenario dump may list scenarios that were never run: cut it to those that were
+    if "--dump-scenarios" in args:
+        dp = args[args.index("--dump-scenarios") + 1]
+        if os.path.exists(dp):
+            dl = open(dp).read().splitlines()
+            with open(dp, "w") as f:
+                f.write("\n".join(dl[:max(nscen, 1)]) + "\n")
+    log(f"[zv] the code under test made no progress for 30 s: scenario #{nscen} recorded as hung")
+    return True
+
+
 def zv(variant, args, timeout=1800):
     build(variant)
     t0 = time.time()
     p = subprocess.run([zv_path(variant)] + [str(a) for a in args], cwd=ROOT, env=base_env(),
                        stdout=subprocess.PIPE, stderr=subprocess.STDOUT, text=True, timeout=timeout)
+    if p.returncode == 3 and _recover_hung(args):
+        return p.stdout
     if p.returncode != 0:
         log(p.stdout[-4000:])
         raise ToolError(f"harness run failed: zv {' '.join(map(str, args))}")
